@@ -215,6 +215,16 @@ def selfcheck(lmax=7):
     return True
 
 
+def ensure_cache(verbose=False):
+    """Nothing is cached for C09 (the reference costs ~4 s per run); setup only runs the self-check."""
+    import time
+    t0 = time.time()
+    selfcheck()
+    if verbose:
+        print(f'[kaula] self-check ok (Kaula sum == +-Allan half-angle formula for all l <= 7, textbook l=2; '
+              f'{time.time() - t0:.1f}s)', flush=True)
+
+
 if __name__ == '__main__':
     import time
     t0 = time.time()
